@@ -145,7 +145,7 @@ def _p(pid, title, rules, decided, undecided, anchors=(), floor=1, extra_assumpt
 
 
 _p('C01', 'Attack-graph edges are exactly the MAL meaning of the step expressions',
-   ['R1', 'R2', 'R12', 'R8', 'R14', 'R19', 'R22', 'R18', 'R20', 'R6', 'R17', 'R10', 'R25'],
+   ['R1', 'R2', 'R12', 'R8', 'R14', 'R19', 'R22', 'R18', 'R20', 'R6', 'R17', 'R10', 'R15', 'R25'],
    decided=['R1: the evaluator never removes from a list it iterates (set operators, sub-type '
             'filter, recursion through callee summaries)',
             'R2: every child link created by generation is mirrored by the converse parent link on '
@@ -276,7 +276,7 @@ _p('C08', 'Viability/necessity labels are the greatest fixed point, in any node 
             ('R17', 'calculate_viability_and_necessity')], floor=5)
 
 _p('C09', 'Attack-graph structure and lookup indexes stay consistent in any history',
-   ['R1', 'R2', 'R3', 'R4', 'R7', 'R20', 'R17', 'R10', 'R22', 'R25'],
+   ['R1', 'R2', 'R3', 'R4', 'R7', 'R20', 'R17', 'R10', 'R22', 'R15', 'R25'],
    decided=['R1: no loop of the attack-graph layer removes from the list it walks',
             'R4: node/attacker ids: explicit id honoured, duplicate test on the stored id, counters monotone',
             'R7: the graph deep copy carries indexes and counters and re-links children, parents and '
